@@ -673,6 +673,27 @@ def minimal_independence_probe(chk, C, cp):
             chk.violation("copy-not-independent", "mutating the copy changed the source (%s)" % how, dict(source=src, how=how))
 
 
+def shared_name_probe(chk, C, cp):
+    """replay of coq/proofs/Copy_witness.v:shared_names_refuted on the implementation (outside the envelope: DBC has one
+    namespace for attribute definitions) - recorded, not alarmed"""
+    src = empty_desc()
+    src["defs"]["frame"].append(["X", "STRING", "2"])
+    src["frames"] = [frame_desc("F", 0x10)]
+    tgt = empty_desc()
+    tgt["defs"]["sig"].append(["X", "STRING", "1"])
+    tgt["frames"] = [frame_desc("G", 0x20, sigs=[sig_desc("t1")])]
+    sdb, tdb = build(C, src), build(C, tgt)
+    byst = tdb.frames[0].signals[0]
+    before = own_eff(byst.attributes, "X", tdb.signal_defines)
+    cp.copy_frame(C.ArbitrationId(0x10, False), sdb, tdb)
+    after = own_eff(byst.attributes, "X", tdb.signal_defines)
+    chk.case(("shared-name-witness",), True)
+    chk.count("shared-name-witness:" + ("reproduced (bystander %s -> %s)" % (before, after) if before != after else "not reproduced"))
+    chk.notes.append("C12_shared_names_refuted replayed on the implementation: source frame definition X (default 2), target signal "
+                     "definition X (default 1), copy_frame -> bystander signal's X %s -> %s (add_define_default writes into every "
+                     "category that knows the name); outside the envelope ns_ok, not alarmed" % (before, after))
+
+
 def run(chk):
     chk.rule = ("systematic stream: every cell of the attribute rule (category ecu/frame/signal x STRING/ENUM x definition in the target "
                 "absent/same default/different default/no default x source explicit/default/no value x bystander explicit/default x "
@@ -691,6 +712,7 @@ def run(chk):
 
     Oracle.PER_KEY = {}
     minimal_independence_probe(chk, C, cp)
+    shared_name_probe(chk, C, cp)
 
     cases = systematic_cases()
     n_random = 7000 if not thorough else 120000
